@@ -47,8 +47,17 @@ Definition enc_source (cfg : algo_cfg float) (s : source_state float) (flag : Z)
         if f_outlier f then 1 else 0; f_last_iter f] ++ enc_meas (f_last f) ++ enc_noise (f_noise f)
   end.
 
+(* a 61-bit polynomial hash of a dump (the harness computes the same); comparing hashes
+   keeps the cases files small: full dumps are available through op 21 *)
+Definition hashl (l : list Z) : Z :=
+  fold_left (fun h x => (h * 1000003 + x mod 2 ^ 64) mod (2 ^ 61 - 1)) l 0.
+Definition kind_of (s : source_state float) : Z := match s with Initial _ => 0 | Stable _ => 1 end.
+Definition out_source (full : bool) (cfg : algo_cfg float) (s : source_state float) (flag : Z) : list Z :=
+  let d := enc_source cfg s flag in
+  if full then d else [hashl d; nthz d 2; kind_of s].
+
 (* events: 1 delay offset time rdelay rdisp mono e | 2 steer | 3 steer time *)
-Fixpoint run_events (fuel : nat) (cfg : algo_cfg float) (period : option float) (stride : Z)
+Fixpoint run_events (full : bool) (fuel : nat) (cfg : algo_cfg float) (period : option float) (stride : Z)
   (s : source_state float) (i : Z) (l : list Z) : list Z :=
   match fuel with
   | O => []
@@ -58,24 +67,24 @@ Fixpoint run_events (fuel : nat) (cfg : algo_cfg float) (period : option float) 
       | 1 :: d :: o :: t :: rd :: rp :: mono :: e :: rest =>
           let r := fst (source_step FloatOps cfg period s (Measure (mkMeas d o t rd rp) mono (fb e))) in
           (if (i mod stride =? 0) || (match rest with [] => true | _ => false end)
-           then enc_source cfg (fst r) (snd r) else [])
-          ++ run_events k cfg period stride (fst r) (i + 1) rest
+           then out_source full cfg (fst r) (snd r) else [])
+          ++ run_events full k cfg period stride (fst r) (i + 1) rest
       | 2 :: st :: rest =>
           let r := fst (source_step FloatOps cfg period s (Step (fb st))) in
           (if (i mod stride =? 0) || (match rest with [] => true | _ => false end)
-           then enc_source cfg (fst r) (snd r) else [])
-          ++ run_events k cfg period stride (fst r) (i + 1) rest
+           then out_source full cfg (fst r) (snd r) else [])
+          ++ run_events full k cfg period stride (fst r) (i + 1) rest
       | 3 :: st :: t :: rest =>
           let r := fst (source_step FloatOps cfg period s (FreqChange (fb st) t)) in
           (if (i mod stride =? 0) || (match rest with [] => true | _ => false end)
-           then enc_source cfg (fst r) (snd r) else [])
-          ++ run_events k cfg period stride (fst r) (i + 1) rest
+           then out_source full cfg (fst r) (snd r) else [])
+          ++ run_events full k cfg period stride (fst r) (i + 1) rest
       | _ => [-99]
       end
   end.
 
 (* history input: 15 config numbers, noise kind (0 buffer | 1 precision accuracy), period, stride, events *)
-Definition run_history (a : list Z) : list Z :=
+Definition run_history (full : bool) (a : list Z) : list Z :=
   let cfg := mkCfg float (fb (nthz a 0)) (fb (nthz a 1)) (nthz a 2) (fb (nthz a 3))
                    (fb (nthz a 4)) (fb (nthz a 5)) (nthz a 6) (fb (nthz a 7))
                    (fb (nthz a 8)) (fb (nthz a 9)) (fb (nthz a 10)) (nthz a 11)
@@ -83,9 +92,9 @@ Definition run_history (a : list Z) : list Z :=
   let rest := skipn 15 a in
   match rest with
   | 0 :: per :: stride :: evs =>
-      run_events (length evs) cfg (dec_period per) stride (source_new FloatOps (NBuf (repeat 0%float 8) 0)) 0 evs
+      run_events full (length evs) cfg (dec_period per) stride (source_new FloatOps (NBuf (repeat 0%float 8) 0)) 0 evs
   | 1 :: p :: acc :: per :: stride :: evs =>
-      run_events (length evs) cfg (dec_period per) stride (source_new FloatOps (NFixed (fb p) (fb acc))) 0 evs
+      run_events full (length evs) cfg (dec_period per) stride (source_new FloatOps (NFixed (fb p) (fb acc))) 0 evs
   | _ => [-98]
   end.
 
@@ -107,7 +116,8 @@ Definition run (c : Z * list Z) : list Z :=
   | 11 => [fst (root_dispersion FloatOps (fb (nthz a 0)) (fb (nthz a 1)) (fb (nthz a 2)) (fb (nthz a 3)) (nthz a 4) (nthz a 5))]
   | 12 => [tb (fst (buf_mean FloatOps (map fb a))); tb (fst (buf_variance FloatOps (map fb a)))]
   | 13 => [tb (ffmod (fb (nthz a 0)) (fb (nthz a 1)))]
-  | 20 => run_history a
+  | 20 => run_history false a
+  | 21 => run_history true a
   | _ => [-97]
   end.
 
